@@ -48,6 +48,46 @@ func (u *ubiH) del(name string) {
 
 var two64 = new(big.Int).Lsh(big.NewInt(1), 64)
 
+// room: how much ukex may still be minted at this block time before the distributor's annual gate (InflationPossible)
+// closes - recomputed from the rule: the gate is closed once supply / year-start snapshot - 1 reaches
+// MaxAnnualInflation * ceil(months since the snapshot) / 12. "inf": no snapshot yet, the gate cannot close. Found by
+// bisection over the supply with the same decimal operations, so that the threshold is exact.
+func (u *ubiH) room(ctx sdk.Context) string {
+	app := u.h.w.app
+	snap := app.DistrKeeper.GetYearStartSnapshot(ctx)
+	if snap.SnapshotAmount.IsNil() || snap.SnapshotAmount.IsZero() {
+		return "inf"
+	}
+	yearly := app.CustomGovKeeper.GetNetworkProperties(ctx).MaxAnnualInflation
+	month := int64(86400 * 30)
+	gone := ctx.BlockTime().Unix() - snap.SnapshotTime
+	monthIndex := (gone + month - 1) / month
+	limit := yearly.Mul(sdk.NewDec(monthIndex)).Quo(sdk.NewDec(12))
+	closed := func(supply sdkmath.Int) bool {
+		return sdk.NewDecFromInt(supply).Quo(sdk.NewDecFromInt(snap.SnapshotAmount)).Sub(sdk.OneDec()).GTE(limit)
+	}
+	cur := app.BankKeeper.GetSupply(ctx, "ukex").Amount
+	if closed(cur) {
+		return "0"
+	}
+	lo, hi := cur, cur.MulRaw(2).AddRaw(1) // lo open; find hi closed
+	for i := 0; i < 200 && !closed(hi); i++ {
+		hi = hi.MulRaw(2)
+	}
+	if !closed(hi) {
+		return "inf"
+	}
+	for hi.Sub(lo).GT(sdkmath.OneInt()) {
+		mid := lo.Add(hi).QuoRaw(2)
+		if closed(mid) {
+			hi = mid
+		} else {
+			lo = mid
+		}
+	}
+	return hi.Sub(cur).String()
+}
+
 // one block of the UBI EndBlocker at time t, with the oracle of the property on the implementation
 func (u *ubiH) block(t int64, history *[]string) string {
 	h := u.h
@@ -58,7 +98,7 @@ func (u *ubiH) block(t int64, history *[]string) string {
 		before[rec.Name] = rec
 	}
 	sb := h.snap()
-	infl := h.w.app.DistrKeeper.InflationPossible(h.at(t))
+	room := u.room(h.at(t))
 	err := withCache(h.at(t), func(cc sdk.Context) error { ubi.EndBlocker(cc, uk); return nil })
 	sa := h.snap()
 	minted := coinDelta(sa.mod, sb.mod, "ukex")
@@ -66,7 +106,7 @@ func (u *ubiH) block(t int64, history *[]string) string {
 	if out == "ok" {
 		out = "ok " + minted.String()
 	}
-	line := fmt.Sprintf("ubi endblock t=%d infl=%s", t, c18b01(infl))
+	line := fmt.Sprintf("ubi endblock t=%d room=%s", t, room)
 	r.Op(line, out)
 	*history = append(*history, line)
 	replay := append([]string{}, *history...)
@@ -91,6 +131,7 @@ func (u *ubiH) block(t int64, history *[]string) string {
 	exactMint := new(big.Int)
 	anyDyn := false
 	stamped := 0
+	largest := new(big.Int)
 	for _, n := range names {
 		b := before[n]
 		a := uk.GetUBIRecordByName(h.ctx, n)
@@ -107,6 +148,9 @@ func (u *ubiH) block(t int64, history *[]string) string {
 		stamped++
 		amt := new(big.Int).Mul(new(big.Int).SetUint64(b.Amount), big.NewInt(1_000_000))
 		maxMint.Add(maxMint, amt)
+		if amt.Cmp(largest) > 0 {
+			largest = amt
+		}
 		if b.Dynamic {
 			anyDyn = true
 		} else {
@@ -138,6 +182,16 @@ func (u *ubiH) block(t int64, history *[]string) string {
 	}
 	if minted.Cmp(maxMint) > 0 || minted.Sign() < 0 || (!anyDyn && minted.Cmp(exactMint) != 0) || minted.Cmp(exactMint) < 0 {
 		r.Fail("C18/ubi/minted", fmt.Sprintf("block %d minted %s ukex into the spending module; stamped records allow exactly %s (+ dynamic up to %s)", t, minted, exactMint, maxMint), replay)
+	}
+	// C13: the annual gate bounds what the block mints: every payout starts while the amount minted before it is still
+	// below the room the gate leaves, so the block mints less than room + its largest single payout (and nothing at room 0)
+	if room != "inf" {
+		rm, _ := new(big.Int).SetString(room, 10)
+		bound := new(big.Int).Add(rm, largest)
+		r.Count("oracle:C13/ubi/annual-gate")
+		if (rm.Sign() == 0 && minted.Sign() > 0) || (minted.Sign() > 0 && minted.Cmp(bound) >= 0) {
+			r.Fail("C13/ubi/minted-past-the-annual-gate", fmt.Sprintf("block %d: the annual gate left room for %s ukex, the UBI records minted %s (largest single payout %s): records were paid after the gate had closed", t, rm, minted, largest), replay)
+		}
 	}
 	r.Case(fmt.Sprintf("ubi/%d/%d/%s", t, stamped, minted), true)
 	r.Count("ubi:block:" + cls(err))
@@ -191,8 +245,30 @@ func (h *h18) ubiScenarios() {
 	h.w.app.DistrKeeper.SetYearStartSnapshot(h.ctx, distributortypes.SupplySnapshot{SnapshotTime: T, SnapshotAmount: sdkmath.NewInt(1)})
 	u.block(T+2700000, &hist)
 	u.block(T+2700200, &hist)
+	// 6b. the gate closes in the MIDDLE of a block: several records are due at once and the room left under the annual
+	// limit covers only the first payout(s): the records behind are not paid (and not stamped)
+	{
+		supply := h.w.app.BankKeeper.GetSupply(h.ctx, "ukex").Amount
+		for k, rm := range []int64{1, 3_000_000, 5_000_001, 12_000_000} {
+			// snapshot chosen so that exactly `rm` more ukex fit under a 10 %-per-12-months limit one month in
+			np := h.w.app.CustomGovKeeper.GetNetworkProperties(h.ctx)
+			limit := np.MaxAnnualInflation.Mul(sdk.NewDec(1)).Quo(sdk.NewDec(12))
+			snapAmt := sdk.NewDecFromInt(supply.AddRaw(rm)).Quo(sdk.OneDec().Add(limit)).TruncateInt()
+			t := T + 2700210 + int64(k)*400
+			h.w.app.DistrKeeper.SetYearStartSnapshot(h.ctx, distributortypes.SupplySnapshot{SnapshotTime: t - 100, SnapshotAmount: snapAmt})
+			for j := 0; j < 3; j++ {
+				u.set(30+j, ubitypes.UBIRecord{Name: nm(30 + j), DistributionLast: uint64(t - 50), Amount: uint64(3 + 2*j), Period: 10, Pool: "u3"})
+			}
+			u.block(t, &hist)
+			u.block(t+20, &hist)
+			supply = h.w.app.BankKeeper.GetSupply(h.ctx, "ukex").Amount
+		}
+		for j := 0; j < 3; j++ {
+			u.del(nm(30 + j))
+		}
+	}
 	h.w.app.DistrKeeper.SetYearStartSnapshot(h.ctx, distributortypes.SupplySnapshot{SnapshotTime: 0, SnapshotAmount: sdkmath.ZeroInt()})
-	u.block(T+2700300, &hist)
+	u.block(T+2700300+2000, &hist)
 	// 7. upsert through the real proposal handler (stamps DistributionLast := DistributionStart), remove through the handler
 	hd := ubi.NewApplyUpsertUBIProposalHandler(uk, h.w.app.CustomGovKeeper, h.w.app.SpendingKeeper)
 	npp := h.w.app.CustomGovKeeper.GetNetworkProperties(h.ctx)
